@@ -1,9 +1,1560 @@
-import UxVerif.Model.Slice
-import UxVerif.Lemmas.SortUniq
+/-
+  C09 — Subsets and cross-sections are faithful, fully functional restrictions.
+
+  Theorems about the model `Model/Slice.lean` (transcription of `uxarray/grid/slice.py` as
+  repaired by fixes/C09-*.patch, of the selectors of `uxarray/subset/grid_accessor.py`, of the
+  latitude scan of `uxarray/grid/intersections.py` and of `UxDataArray._slice_from_grid`), for
+  source grids, index lists, data arrays and request histories of ANY size.
+
+  * `slice_faces_exact`      — recorded indices = request; every subset face has the corners of its
+                               source face (same order, same padding) under the recorded node map;
+                               the subset's nodes / edges are exactly those of the selected faces,
+                               each once, ascending; edge end nodes and face-edge rows are the source's.
+  * `slice_std`              — the subset's face table is in standard form, so every theorem of C02
+                               applies to it (`fresh_build_meets_spec`).
+  * `slice_functional`       — the subset's OWN travelling edge tables meet C02's `Edges.Spec`.
+  * `slice_meets_spec`       — all of the above = the decidable `Slice.Spec` the driver evaluates.
+  * `touching_nodes/edges`   — node / edge selections are inclusive (`Touching`), and with C03's
+                               spec: `f` selected ↔ some selected node is a corner of `f`
+                               (`nodes_inclusive`, `edges_inclusive`); `slice_nodes_meets_spec`,
+                               `slice_edges_meets_spec`: the whole specification for such selections.
+  * `slice_eq_fresh`         — slicing commutes with edge construction: for a source whose edges uxarray
+                               derived, the travelling tables equal `Edges.build` of the subset's faces.
+  * `slice_history_independent` (`request_coh`, `slice_coh`, `view_coh`)
+                             — whatever was materialised on the source before (any request history),
+                               the subset answers every request, in any order, with the same tables.
+  * `built_grid_end_to_end`  — all of it for every standard-form face table, no other hypothesis.
+  * `asis_*`                 — what /repo did before the repair: proved counterexamples.
+  * `data_aligned`, `data_aligned_rank`
+                             — sliced data are the source's at the recorded indices, any rank.
+  * `crosses_iff`, `mask_order_irrelevant`, `crosssec_iff`
+                             — the latitude scan: strictly opposite sides, any iteration order.
+  * `box_iff`, `circle_iff`, `knn_spec` — region selectors as predicates on reference points.
+-/
+import UxVerif.Lemmas.Slice
+import UxVerif.Props.C02
+import UxVerif.Props.C03
+import Mathlib.Algebra.Order.Field.Basic
 
 namespace UxVerif.C09
-open UxVerif UxVerif.Slice
+open UxVerif UxVerif.Slice UxVerif.Edges
 
-theorem faces_recorded (s : Src) (idx : List Nat) : (sliceFaces s idx).faceIdx = idx := rfl
+/-! ## 1. the restriction is exact -/
+
+section Exact
+variable {n w : Nat} {s : Src} {idx : List Nat}
+
+theorem row_in_nodeSel {f : Nat} (hf : f ∈ idx) :
+    ∀ x ∈ rowAt s.t f, x = FILL ∨ x ∈ nodeSel s idx := by
+  intro x hx
+  by_cases h : x = FILL
+  · left; exact h
+  · right; exact mem_sel.mpr ⟨mem_gather.mpr ⟨f, hf, hx⟩, h⟩
+
+theorem row_in_edgeSel {f : Nat} (hf : f ∈ idx) :
+    ∀ x ∈ rowAt s.FE f, x = FILL ∨ x ∈ edgeSel s idx := by
+  intro x hx
+  by_cases h : x = FILL
+  · left; exact h
+  · right; exact mem_sel.mpr ⟨mem_gather.mpr ⟨f, hf, hx⟩, h⟩
+
+theorem faces_recorded (s : Src) (idx : List Nat) : FacesRecorded idx (sliceFaces s idx).obs := rfl
+
+/-- **corner positions**: read through the recorded node indices, face `i` of the subset IS
+    source face `idx[i]` — same corners, same order, same padding.  No hypothesis on the source. -/
+theorem corners_exact (s : Src) (idx : List Nat) : CornersExact s idx (sliceFaces s idx).obs := by
+  refine ⟨by simp [SubGrid.obs, sliceFaces], ?_⟩
+  intro i hi
+  have hrow : rowAt (sliceFaces s idx).obs.t i = (rowAt s.t idx[i]).map (remap (nodeSel s idx)) :=
+    rowAt_map_idx idx _ i hi
+  rw [hrow, getD_lt 0 hi]
+  exact map_back_remap (row_in_nodeSel (List.getElem_mem hi))
+
+/-- **nodes**: exactly the corners of the selected faces, each once -/
+theorem nodes_exact (s : Src) (idx : List Nat) : NodesExact s idx (sliceFaces s idx).obs := by
+  refine ⟨nodup_sel _, ?_, ?_⟩
+  · intro v hv
+    have := mem_sel.mp hv
+    exact ⟨this.2, this.1⟩
+  · intro v hv hne
+    exact mem_sel.mpr ⟨hv, hne⟩
+
+/-- the recorded node and edge indices are ascending (`np.unique`) -/
+theorem recorded_ascending (s : Src) (idx : List Nat) :
+    (sliceFaces s idx).nodeIdx.Pairwise (· < ·) ∧ (sliceFaces s idx).edgeIdx.Pairwise (· < ·) :=
+  ⟨sorted_sel _, sorted_sel _⟩
+
+/-- **face-edge rows**: read through the recorded edge indices, row `i` is the source's row -/
+theorem faceEdges_restrict (s : Src) (idx : List Nat) :
+    FaceEdgesRestrict s idx (sliceFaces s idx).obs := by
+  refine ⟨by simp [SubGrid.obs, sliceFaces], ?_⟩
+  intro i hi
+  have hrow : rowAt (sliceFaces s idx).obs.FE i = (rowAt s.FE idx[i]).map (remap (edgeSel s idx)) :=
+    rowAt_map_idx idx _ i hi
+  rw [hrow, getD_lt 0 hi]
+  exact map_back_remap (row_in_edgeSel (List.getElem_mem hi))
+
+/-- a selected edge sits in some slot `j` of a selected face, where the source's (correct) tables
+    say it joins corners `j` and `j+1` -/
+theorem edge_slot (h : Pre n w s idx) {e : Int} (he : e ∈ edgeSel s idx) :
+    ∃ f ∈ idx, ∃ j, j < w ∧ j < (faceOf (rowAt s.t f)).length ∧ entry (rowAt s.FE f) j = e ∧
+      ∃ e0, getI? s.EN e = some e0 ∧ (rowSegs (rowAt s.t f))[j]? = some (sortPair e0) := by
+  obtain ⟨_, hspec, hidx, _⟩ := h
+  obtain ⟨hg, hne⟩ := mem_sel.mp he
+  obtain ⟨f, hf, hx⟩ := mem_gather.mp hg
+  have hft := hidx f hf
+  obtain ⟨_, hrow⟩ := hspec.2.2.2.1
+  dsimp only at hrow
+  obtain ⟨hlen, hslots⟩ := hrow f hft
+  obtain ⟨j, hj, hje⟩ := List.getElem_of_mem hx
+  have hent : entry (rowAt s.FE f) j = e := by
+    unfold entry; rw [getD_lt FILL hj]; exact hje
+  have hjw : j < w := by omega
+  have := hslots j hjw
+  split at this
+  · rename_i hjk
+    obtain ⟨sg, hsg, e0, he0, hsort⟩ := this
+    refine ⟨f, hf, j, hjw, hjk, hent, e0, ?_, ?_⟩
+    · rw [← hent]; exact he0
+    · rw [hsort]; exact hsg
+  · rw [hent] at this; exact absurd this hne
+
+/-- the end nodes of a selected edge are corners of a selected face, hence selected nodes -/
+theorem edge_nodes_selected (h : Pre n w s idx) {e : Int} (he : e ∈ edgeSel s idx) :
+    (edgeAt s.EN e).1 ∈ nodeSel s idx ∧ (edgeAt s.EN e).2 ∈ nodeSel s idx := by
+  obtain ⟨f, hf, j, _, _, _, e0, he0, hseg⟩ := edge_slot h he
+  have hE : edgeAt s.EN e = e0 := by unfold edgeAt; rw [he0]; rfl
+  rw [hE]
+  have hmem : sortPair e0 ∈ rowSegs (rowAt s.t f) := List.mem_of_getElem? hseg
+  have hc := mem_rowSegs_comps _ _ hmem
+  have key : ∀ x, x ∈ faceOf (rowAt s.t f) → x ∈ nodeSel s idx := by
+    intro x hx
+    rcases row_in_nodeSel (s := s) hf x (mem_faceOf_mem _ x hx) with h1 | h1
+    · exact absurd h1 (faceOf_ne_fill _ x hx)
+    · exact h1
+  exact sortPair_comps e0 (· ∈ nodeSel s idx) ⟨key _ hc.1, key _ hc.2⟩
+
+/-- **edges**: exactly the edges of the selected faces, each once, with the source's end nodes -/
+theorem edges_restrict (h : Pre n w s idx) : EdgesRestrict s idx (sliceFaces s idx).obs := by
+  refine ⟨nodup_sel _, ?_, ?_, by simp [SubGrid.obs, sliceFaces], ?_⟩
+  · intro e he
+    have := mem_sel.mp he
+    exact ⟨this.2, this.1⟩
+  · intro e he hne
+    exact mem_sel.mpr ⟨he, hne⟩
+  · intro k hk
+    have hk' : k < (edgeSel s idx).length := hk
+    have hEN : (sliceFaces s idx).obs.EN.getD k (FILL, FILL)
+        = mapPair (remap (nodeSel s idx)) (edgeAt s.EN (edgeSel s idx)[k]) := by
+      simp [SubGrid.obs, sliceFaces, List.getD, List.getElem?_map, List.getElem?_eq_getElem hk']
+    have hidxk : (sliceFaces s idx).obs.edgeIdx.getD k FILL = (edgeSel s idx)[k] := getD_lt FILL hk'
+    rw [hEN, hidxk]
+    obtain ⟨h1, h2⟩ := edge_nodes_selected h (List.getElem_mem hk')
+    congr 1
+    change (back (nodeSel s idx) (remap (nodeSel s idx) (edgeAt s.EN (edgeSel s idx)[k]).1),
+      back (nodeSel s idx) (remap (nodeSel s idx) (edgeAt s.EN (edgeSel s idx)[k]).2)) = _
+    rw [back_remap (Or.inr h1), back_remap (Or.inr h2)]
+
+/-- **C09, restriction clauses.** -/
+theorem slice_faces_exact (h : Pre n w s idx) : Restrict s idx (sliceFaces s idx).obs :=
+  ⟨faces_recorded s idx, corners_exact s idx, nodes_exact s idx, edges_restrict h,
+   faceEdges_restrict s idx⟩
+
+end Exact
+
+/-! ## 2. the subset is a functional grid -/
+
+section Functional
+variable {n w : Nat} {s : Src} {idx : List Nat}
+
+theorem remapN_fill (s : Src) (idx : List Nat) :
+    ∀ x, remap (nodeSel s idx) x = FILL ↔ x = FILL := fun _ => remap_eq_fill_iff
+
+theorem mem_sub_t {r' : List Int} (hr : r' ∈ (sliceFaces s idx).t) :
+    ∃ f ∈ idx, r' = (rowAt s.t f).map (remap (nodeSel s idx)) := by
+  rcases List.mem_map.mp hr with ⟨f, hf, rfl⟩
+  exact ⟨f, hf, rfl⟩
+
+/-- the subset's face table is in standard form over its own `nodeIdx.length` nodes -/
+theorem slice_std (h : Pre n w s idx) :
+    StdForm (sliceFaces s idx).nodeIdx.length w (sliceFaces s idx).t := by
+  intro r' hr'
+  obtain ⟨f, hf, rfl⟩ := mem_sub_t hr'
+  have hstd : StdRow n w (rowAt s.t f) := h.1 _ (rowAt_mem (h.2.2.1 f hf))
+  obtain ⟨h1, h2, _, h4⟩ := hstd
+  have hg := remapN_fill s idx
+  refine ⟨by simpa using h1, ?_, ?_, ?_⟩
+  · rw [faceOf_map hg]; simpa using h2
+  · rw [faceOf_map hg]
+    intro x hx
+    rcases List.mem_map.mp hx with ⟨y, hy, rfl⟩
+    have hne := faceOf_ne_fill _ y hy
+    have hmem : y ∈ nodeSel s idx := by
+      rcases row_in_nodeSel (s := s) hf y (mem_faceOf_mem _ y hy) with h' | h'
+      · exact absurd h' hne
+      · exact h'
+    exact remap_bound hmem hne
+  · rw [faceOf_map hg, List.length_map, ← List.map_drop]
+    intro x hx
+    rcases List.mem_map.mp hx with ⟨y, hy, rfl⟩
+    rw [h4 y hy, remap_fill]
+
+/-- segment `j` of a renumbered row is the renumbered segment `j` -/
+theorem rowSegs_remap_get (s : Src) (idx : List Nat) (r : List Int) (j : Nat) (p : Int × Int)
+    (hp : (rowSegs r)[j]? = some (sortPair p)) :
+    (rowSegs (r.map (remap (nodeSel s idx))))[j]? = some (sortPair (mapPair (remap (nodeSel s idx)) p)) := by
+  rw [rowSegs_map (remapN_fill s idx)]
+  unfold rowSegs at hp
+  rw [List.getElem?_map] at hp ⊢
+  cases hq : (segs (faceOf r))[j]? with
+  | none => rw [hq] at hp; cases hp
+  | some q =>
+    rw [hq] at hp
+    simp only [Option.map_some, Option.some.injEq] at hp ⊢
+    exact sortPair_mapPair _ hp
+
+theorem sub_EN_get (s : Src) (idx : List Nat) {e : Int} (he : e ∈ edgeSel s idx) :
+    getI? (sliceFaces s idx).EN (remap (edgeSel s idx) e)
+      = some (mapPair (remap (nodeSel s idx)) (edgeAt s.EN e)) := by
+  have hne := (mem_sel.mp he).2
+  have hi := idxOf_lt he
+  rw [remap_of_ne hne, getI?_ofNat]
+  simp only [sliceFaces, List.getElem?_map, List.getElem?_eq_getElem hi, Option.map_some]
+  rw [List.getElem_idxOf hi]
+
+/-- **`face_edge[f, j]` of the subset joins corners `j`, `j+1` of subset face `f`** -/
+theorem sub_faceEdges_ok (h : Pre n w s idx) :
+    FaceEdgesOK (sliceFaces s idx).t w (sliceFaces s idx).EN (sliceFaces s idx).FE := by
+  refine ⟨by simp [sliceFaces], ?_⟩
+  intro i hi
+  have hi' : i < idx.length := by simpa [sliceFaces] using hi
+  have hf : idx[i] ∈ idx := List.getElem_mem hi'
+  have hft := h.2.2.1 _ hf
+  rw [show rowAt (sliceFaces s idx).t i = (rowAt s.t idx[i]).map (remap (nodeSel s idx)) from
+        rowAt_map_idx idx _ i hi',
+      show rowAt (sliceFaces s idx).FE i = (rowAt s.FE idx[i]).map (remap (edgeSel s idx)) from
+        rowAt_map_idx idx _ i hi']
+  have hrowspec := h.2.1.2.2.2.1.2
+  dsimp only at hrowspec
+  obtain ⟨hlen, hslots⟩ := hrowspec idx[i] hft
+  refine ⟨by simpa using hlen, ?_⟩
+  intro j hj
+  have hjl : j < (rowAt s.FE idx[i]).length := by omega
+  have hent : entry ((rowAt s.FE idx[i]).map (remap (edgeSel s idx))) j
+      = remap (edgeSel s idx) (entry (rowAt s.FE idx[i]) j) := by
+    simp [entry, List.getD, List.getElem?_map, List.getElem?_eq_getElem hjl]
+  rw [hent, faceOf_map (remapN_fill s idx), List.length_map]
+  have := hslots j hj
+  split at this
+  · rename_i hjk
+    rw [if_pos hjk]
+    obtain ⟨sg, hsg, e0, he0, hsort⟩ := this
+    have hge := getI?_some he0
+    have hne : entry (rowAt s.FE idx[i]) j ≠ FILL := by
+      have := FILL_neg; omega
+    have hmemrow : entry (rowAt s.FE idx[i]) j ∈ rowAt s.FE idx[i] := by
+      unfold entry; rw [getD_lt FILL hjl]; exact List.getElem_mem hjl
+    have hsel : entry (rowAt s.FE idx[i]) j ∈ edgeSel s idx :=
+      mem_sel.mpr ⟨mem_gather.mpr ⟨_, hf, hmemrow⟩, hne⟩
+    have hE : edgeAt s.EN (entry (rowAt s.FE idx[i]) j) = e0 := by
+      unfold edgeAt; rw [he0]; rfl
+    refine ⟨sortPair (mapPair (remap (nodeSel s idx)) e0), ?_, _, sub_EN_get s idx hsel, ?_⟩
+    · exact rowSegs_remap_get s idx _ j e0 (by rw [hsort]; exact hsg)
+    · rw [hE]
+  · rename_i hjk
+    rw [if_neg hjk, this, remap_fill]
+
+/-- **every edge of the subset is a boundary segment of a subset face, without padding** -/
+theorem sub_edges_sound (h : Pre n w s idx) :
+    EdgesSound (sliceFaces s idx).t (sliceFaces s idx).EN := by
+  intro e' he'
+  rcases List.mem_map.mp he' with ⟨e, he, rfl⟩
+  obtain ⟨f, hf, j, _, _, _, e0, he0, hseg⟩ := edge_slot h he
+  have hE : edgeAt s.EN e = e0 := by unfold edgeAt; rw [he0]; rfl
+  obtain ⟨h1, h2⟩ := edge_nodes_selected h he
+  have hn1 := (mem_sel.mp h1).2
+  have hn2 := (mem_sel.mp h2).2
+  refine ⟨remap_ne_fill hn1, remap_ne_fill hn2, (rowAt s.t f).map (remap (nodeSel s idx)),
+    List.mem_map.mpr ⟨f, hf, rfl⟩, ?_⟩
+  rw [hE]
+  exact List.mem_of_getElem? (rowSegs_remap_get s idx _ j e0 hseg)
+
+/-- **every boundary segment of every subset face is an edge of the subset** -/
+theorem sub_edges_complete (h : Pre n w s idx) :
+    EdgesComplete (sliceFaces s idx).t (sliceFaces s idx).EN := by
+  intro r' hr' sg' hsg'
+  obtain ⟨f, hf, rfl⟩ := mem_sub_t hr'
+  have hft := h.2.2.1 f hf
+  obtain ⟨j, hj, hje⟩ := List.getElem_of_mem hsg'
+  have hjk : j < (faceOf (rowAt s.t f)).length := by
+    rw [length_rowSegs, faceOf_map (remapN_fill s idx), List.length_map] at hj; exact hj
+  have hstd : StdRow n w (rowAt s.t f) := h.1 _ (rowAt_mem hft)
+  have hjw : j < w := by
+    have := hstd.1
+    have h2 : (faceOf (rowAt s.t f)).length ≤ (rowAt s.t f).length := length_takeWhile_le' _ _
+    omega
+  have hrowspec := h.2.1.2.2.2.1.2
+  dsimp only at hrowspec
+  obtain ⟨hlen, hslots⟩ := hrowspec f hft
+  have := hslots j hjw
+  rw [if_pos hjk] at this
+  obtain ⟨sg, hsg, e0, he0, hsort⟩ := this
+  have hjl : j < (rowAt s.FE f).length := by omega
+  have hge := getI?_some he0
+  have hne : entry (rowAt s.FE f) j ≠ FILL := by
+    have := FILL_neg; omega
+  have hmemrow : entry (rowAt s.FE f) j ∈ rowAt s.FE f := by
+    unfold entry; rw [getD_lt FILL hjl]; exact List.getElem_mem hjl
+  have hsel : entry (rowAt s.FE f) j ∈ edgeSel s idx :=
+    mem_sel.mpr ⟨mem_gather.mpr ⟨_, hf, hmemrow⟩, hne⟩
+  have hE : edgeAt s.EN (entry (rowAt s.FE f) j) = e0 := by unfold edgeAt; rw [he0]; rfl
+  have hget := rowSegs_remap_get s idx (rowAt s.t f) j e0 (by rw [hsort]; exact hsg)
+  have : sg' = sortPair (mapPair (remap (nodeSel s idx)) e0) := by
+    have h1 : (rowSegs ((rowAt s.t f).map (remap (nodeSel s idx))))[j]? = some sg' := by
+      rw [List.getElem?_eq_getElem hj, hje]
+    rw [h1] at hget
+    exact Option.some.inj hget
+  rw [this]
+  refine List.mem_map.mpr ⟨mapPair (remap (nodeSel s idx)) e0, ?_, rfl⟩
+  refine List.mem_map.mpr ⟨entry (rowAt s.FE f) j, hsel, ?_⟩
+  rw [hE]
+
+theorem getElem_inj_of_nodup {α} {l : List α} (hn : l.Nodup) {i j : Nat} (hi : i < l.length)
+    (hj : j < l.length) (h : l[i] = l[j]) : i = j := by
+  have := List.pairwise_iff_getElem.mp hn
+  rcases Nat.lt_trichotomy i j with hlt | heq | hgt
+  · exact absurd h (this i j hi hj hlt)
+  · exact heq
+  · exact absurd h.symm (this j i hj hi hgt)
+
+/-- **… exactly once** -/
+theorem sub_edges_once (h : Pre n w s idx) : EdgesOnce (sliceFaces s idx).EN := by
+  unfold EdgesOnce
+  have hsrc : (s.EN.map sortPair).Nodup := h.2.1.2.2.1
+  show (((edgeSel s idx).map (fun e => mapPair (remap (nodeSel s idx)) (edgeAt s.EN e))).map sortPair).Nodup
+  rw [List.map_map]
+  unfold List.Nodup
+  rw [List.pairwise_map]
+  refine List.Pairwise.imp_of_mem ?_ (nodup_sel (gather s.FE idx))
+  intro a b ha hb hab heq
+  apply hab
+  obtain ⟨a1, a2⟩ := edge_nodes_selected h ha
+  obtain ⟨b1, b2⟩ := edge_nodes_selected h hb
+  have hsp : sortPair (edgeAt s.EN a) = sortPair (edgeAt s.EN b) :=
+    mapPair_inj_sort (S := (· ∈ nodeSel s idx))
+      (fun x y hx hy hxy => remap_inj (Or.inr hx) (Or.inr hy) hxy) ⟨a1, a2⟩ ⟨b1, b2⟩ heq
+  obtain ⟨_, _, _, _, _, _, ea, hea, _⟩ := edge_slot h ha
+  obtain ⟨_, _, _, _, _, _, eb, heb, _⟩ := edge_slot h hb
+  obtain ⟨ha0, hal, hag⟩ := getI?_some hea
+  obtain ⟨hb0, hbl, hbg⟩ := getI?_some heb
+  have hEa : edgeAt s.EN a = ea := by unfold edgeAt; rw [hea]; rfl
+  have hEb : edgeAt s.EN b = eb := by unfold edgeAt; rw [heb]; rfl
+  rw [hEa, hEb] at hsp
+  have hla : a.toNat < (s.EN.map sortPair).length := by simpa using hal
+  have hlb : b.toNat < (s.EN.map sortPair).length := by simpa using hbl
+  have e1 : (s.EN.map sortPair)[a.toNat] = sortPair ea := by
+    rw [List.getElem_map]; congr 1
+    have := List.getElem?_eq_getElem hal ▸ hag
+    exact Option.some.inj this
+  have e2 : (s.EN.map sortPair)[b.toNat] = sortPair eb := by
+    rw [List.getElem_map]; congr 1
+    have := List.getElem?_eq_getElem hbl ▸ hbg
+    exact Option.some.inj this
+  have := getElem_inj_of_nodup hsrc hla hlb (by rw [e1, e2, hsp])
+  omega
+
+/-- **C09, functional clause**: the edge tables that travel with the subset meet C02's
+    specification OF THE SUBSET — so every table derived from them on request (C03) is a table of
+    the restricted mesh. -/
+theorem slice_functional (h : Pre n w s idx) : Functional w (sliceFaces s idx).obs :=
+  ⟨sub_edges_sound h, sub_edges_complete h, sub_edges_once h, sub_faceEdges_ok h,
+   C02.nPerFace_ok (slice_std h)⟩
+
+/-- **C09 (main theorem, faces).**  For every source whose own tables are right and every valid
+    duplicate-free index list, the model of `_slice_face_indices` meets the specification. -/
+theorem slice_meets_spec (h : Pre n w s idx) : Slice.Spec s w idx (sliceFaces s idx).obs :=
+  ⟨slice_faces_exact h, slice_functional h⟩
+
+/-- should the edges of the subset ever be rebuilt from its faces, C02's theorem applies -/
+theorem fresh_build_meets_spec (h : Pre n w s idx) :
+    Edges.Spec (sliceFaces s idx).t w (Edges.build (sliceFaces s idx).t) :=
+  C02.build_meets_spec (slice_std h)
+
+end Functional
+
+/-! ## 3. node / edge selections are inclusive -/
+
+theorem touching_sel (rows : Table) (ind : List Nat) : Touching rows ind (sel (gather rows ind)) := by
+  refine ⟨nodup_sel _, ?_, ?_⟩
+  · intro f hf
+    obtain ⟨hg, hne⟩ := mem_sel.mp hf
+    exact ⟨hne, mem_gather.mp hg⟩
+  · intro v hv f hf hne
+    exact mem_sel.mpr ⟨mem_gather.mpr ⟨v, hv, hf⟩, hne⟩
+
+theorem touching_nodes (NF : Table) (ind : List Nat) : Touching NF ind (facesOfNodes NF ind) :=
+  touching_sel NF ind
+
+theorem touching_edges (EF : List (Int × Int)) (ind : List Nat) :
+    Touching (pairRows EF) ind (facesOfEdges EF ind) := touching_sel _ ind
+
+theorem faces_ascending (rows : Table) (ind : List Nat) :
+    (sel (gather rows ind)).Pairwise (· < ·) := sorted_sel _
+
+/-- with a correct `node_face_connectivity` (C03): face `f` is in the subset iff one of the
+    selected nodes is a corner of `f` -/
+theorem nodes_inclusive {n : Nat} {t NF : Table} (hNF : Incidence.NodeFaceOK n t NF)
+    {ind : List Nat} (hind : ∀ v ∈ ind, v < n) (f : Nat) (hf : f < t.length) :
+    Int.ofNat f ∈ facesOfNodes NF ind ↔ ∃ v ∈ ind, Int.ofNat v ∈ Incidence.real (rowAt t f) := by
+  unfold facesOfNodes
+  rw [mem_sel]
+  constructor
+  · rintro ⟨hg, _⟩
+    obtain ⟨v, hv, hx⟩ := mem_gather.mp hg
+    exact ⟨v, hv, (hNF.2.1 v (hind v hv) f hf).mp hx⟩
+  · rintro ⟨v, hv, hx⟩
+    exact ⟨mem_gather.mpr ⟨v, hv, (hNF.2.1 v (hind v hv) f hf).mpr hx⟩, ofNat_ne_FILL f⟩
+
+/-- every selected face index is a face of the source -/
+theorem nodes_faces_valid {n : Nat} {t NF : Table} (hNF : Incidence.NodeFaceOK n t NF)
+    {ind : List Nat} (hind : ∀ v ∈ ind, v < n) :
+    ∀ x ∈ facesOfNodes NF ind, 0 ≤ x ∧ x < t.length := by
+  intro x hx
+  obtain ⟨hg, hne⟩ := mem_sel.mp hx
+  obtain ⟨v, hv, hxr⟩ := mem_gather.mp hg
+  have hvn : v < NF.length := by rw [hNF.1]; exact hind v hv
+  rcases hNF.2.2 _ (rowAt_mem hvn) x hxr with h | h
+  · exact absurd h hne
+  · exact h
+
+theorem rowAt_pairRows {EF : List (Int × Int)} {e : Nat} (he : e < EF.length) :
+    rowAt (pairRows EF) e = [(EF.getD e (FILL, FILL)).1, (EF.getD e (FILL, FILL)).2] := by
+  simp [rowAt, pairRows, List.getD, List.getElem?_map, List.getElem?_eq_getElem he]
+
+/-- with a correct `edge_face_connectivity` (C03): face `f` is in the subset iff one of the
+    selected edges is an edge of `f` -/
+theorem edges_inclusive {FE : Table} {N : List Nat} {nEdge : Nat} {EF : List (Int × Int)}
+    (hEF : Incidence.EdgeFaceOK FE N nEdge EF) {ind : List Nat} (hind : ∀ e ∈ ind, e < nEdge)
+    (f : Nat) (hf : f < FE.length) :
+    Int.ofNat f ∈ facesOfEdges EF ind ↔ ∃ e ∈ ind, Int.ofNat e ∈ Incidence.faceEdgesOf FE N f := by
+  unfold facesOfEdges
+  rw [mem_sel]
+  have key : ∀ e ∈ ind, (Int.ofNat f ∈ rowAt (pairRows EF) e ↔
+      Int.ofNat e ∈ Incidence.faceEdgesOf FE N f) := by
+    intro e he
+    have hen := hind e he
+    rw [rowAt_pairRows (by rw [hEF.1]; exact hen)]
+    have := (hEF.2 e hen).2.2.2 f hf
+    simp only [List.mem_cons, List.mem_nil_iff, or_false]
+    exact this
+  constructor
+  · rintro ⟨hg, _⟩
+    obtain ⟨e, he, hx⟩ := mem_gather.mp hg
+    exact ⟨e, he, (key e he).mp hx⟩
+  · rintro ⟨e, he, hx⟩
+    exact ⟨mem_gather.mpr ⟨e, he, (key e he).mpr hx⟩, ofNat_ne_FILL f⟩
+
+/-! ## 4. data stay attached -/
+
+/-- rank 1: entry `i` of the sliced data is the source entry at the recorded index `ri[i]` -/
+theorem data_aligned_get {α} (d : List α) (ri : List Nat) (i : Nat) (hi : i < ri.length) :
+    (iselLast d ri)[i]? = some d[ri[i]]? := by
+  simp [iselLast, List.getElem?_map, List.getElem?_eq_getElem hi]
+
+/-- **any rank**: at every leading multi-index `ks`, entry `i` of the sliced array is the source
+    entry at `(ks, ri[i])` (`none` on both sides when an index is out of range) -/
+theorem data_aligned_rank {α} (r : Nat) (d : NArr α r) (ri : List Nat) (ks : List Nat) (i : Nat) :
+    (atN r (iselN r d ri) ks i).join = (ri[i]?).bind (fun j => atN r d ks j) := by
+  induction r generalizing ks with
+  | zero =>
+    simp only [atN, iselN, iselLast, List.getElem?_map]
+    cases ri[i]? <;> simp
+  | succ r ih =>
+    cases ks with
+    | nil =>
+      simp only [atN]
+      cases ri[i]? <;> simp
+    | cons k ks =>
+      have hd : ∀ (l : List (NArr α r)),
+          (atN (r + 1) (iselN (r + 1) (l : NArr α (r + 1)) ri) (k :: ks) i).join
+          = (ri[i]?).bind (fun j => atN (r + 1) (l : NArr α (r + 1)) (k :: ks) j) := by
+        intro l
+        simp only [atN, iselN, List.getElem?_map]
+        cases l[k]? with
+        | none => cases ri[i]? <;> simp
+        | some x => simpa using ih x ks
+      exact hd d
+
+/-- the decidable form the driver evaluates, for the model's own slicing -/
+theorem data_aligned (ri : List Nat) (src : List (List Int)) (n : Nat)
+    (hrows : ∀ d ∈ src, d.length = n) (hri : ∀ j ∈ ri, j < n) :
+    DataAligned ri src (src.map (fun d => ri.map (fun j => d.getD j 0))) := by
+  refine ⟨by simp, ?_⟩
+  intro l hl
+  have hd : src[l] ∈ src := List.getElem_mem hl
+  rw [getD_lt [] hl, getD_lt [] (by simpa using hl)]
+  simp only [List.getElem_map, iselLast, List.map_map]
+  apply List.map_congr_left
+  intro j hj
+  have : j < (src[l]).length := by rw [hrows _ hd]; exact hri j hj
+  simp [List.getD, List.getElem?_eq_getElem this]
+
+/-! ## 5. the latitude scan -/
+
+section Scan
+variable {K : Type} [Sub K] [Mul K] [LT K] [DecidableLT K] [OfNat K 0]
+
+/-- does iteration `i` set its cell -/
+def crossAt (c : K) (Z : List (K × K)) (i : Nat) : Bool :=
+  match Z[i]? with
+  | some z => crosses c z
+  | none => false
+
+theorem maskStep_length (c : K) (Z : List (K × K)) (m : List Bool) (i : Nat) :
+    (maskStep c Z m i).length = m.length := by
+  unfold maskStep
+  cases Z[i]? with
+  | none => rfl
+  | some z => dsimp only; split <;> simp
+
+theorem maskStep_get (c : K) (Z : List (K × K)) (m : List Bool) (hm : m.length = Z.length) (i k : Nat) :
+    (maskStep c Z m i).getD k false = (m.getD k false || (decide (k = i) && crossAt c Z i)) := by
+  unfold maskStep crossAt
+  cases hz : Z[i]? with
+  | none => simp
+  | some z =>
+    have hi : i < Z.length := (List.getElem?_eq_some_iff.mp hz).1
+    dsimp only
+    by_cases hc : crosses c z = true
+    · rw [if_pos hc, hc]
+      by_cases hk : k = i
+      · subst hk
+        simp [List.getD, hm, hi]
+      · have : ¬ i = k := fun h => hk h.symm
+        simp [List.getD, hk, this]
+    · rw [if_neg hc]
+      have : crosses c z = false := by simpa using hc
+      simp [this]
+
+theorem maskFold (c : K) (Z : List (K × K)) (order : List Nat) (m : List Bool) (hm : m.length = Z.length) :
+    (order.foldl (maskStep c Z) m).length = Z.length ∧
+    ∀ k, (order.foldl (maskStep c Z) m).getD k false
+      = (m.getD k false || (decide (k ∈ order) && crossAt c Z k)) := by
+  induction order generalizing m with
+  | nil => simp [hm]
+  | cons i order ih =>
+    have hl : (maskStep c Z m i).length = Z.length := by rw [maskStep_length, hm]
+    obtain ⟨h1, h2⟩ := ih (maskStep c Z m i) hl
+    refine ⟨h1, ?_⟩
+    intro k
+    rw [List.foldl_cons, h2 k, maskStep_get c Z m hm i k]
+    by_cases hk : k = i
+    · subst hk
+      simp
+      cases m[k]?.getD false <;> cases crossAt c Z k <;> simp
+    · have : ¬ (k = i ∨ k ∈ order) ↔ ¬ k ∈ order := by simp [hk]
+      by_cases hko : k ∈ order <;> simp [hk, hko]
+
+/-- cell `k` of the mask is set iff iteration `k` was run and edge `k` crosses -/
+theorem maskLoop_get (c : K) (Z : List (K × K)) (order : List Nat) (k : Nat) :
+    (maskLoop c Z order).getD k false = (decide (k ∈ order) && crossAt c Z k) := by
+  have := (maskFold c Z order (List.replicate Z.length false) (by simp)).2 k
+  unfold maskLoop
+  rw [this]
+  have h0 : (List.replicate Z.length false).getD k false = false := by
+    simp only [List.getD, List.getElem?_replicate]
+    split <;> rfl
+  rw [h0, Bool.false_or]
+
+theorem maskLoop_length (c : K) (Z : List (K × K)) (order : List Nat) :
+    (maskLoop c Z order).length = Z.length :=
+  (maskFold c Z order (List.replicate Z.length false) (by simp)).1
+
+/-- **schedules**: the mask does not depend on the order in which the `prange` iterations run -/
+theorem mask_order_irrelevant (c : K) (Z : List (K × K)) {o₁ o₂ : List Nat} (h : o₁.Perm o₂) :
+    maskLoop c Z o₁ = maskLoop c Z o₂ := by
+  apply List.ext_getElem?
+  intro k
+  have l1 := maskLoop_length c Z o₁
+  have l2 := maskLoop_length c Z o₂
+  by_cases hk : k < Z.length
+  · have g1 := maskLoop_get c Z o₁ k
+    have g2 := maskLoop_get c Z o₂ k
+    rw [List.getD, List.getElem?_eq_getElem (by omega)] at g1 g2
+    rw [List.getElem?_eq_getElem (by omega), List.getElem?_eq_getElem (by omega)]
+    simp only [Option.getD_some] at g1 g2
+    rw [g1, g2]
+    have : (k ∈ o₁) ↔ (k ∈ o₂) := h.mem_iff
+    simp [this]
+  · rw [List.getElem?_eq_none (by omega), List.getElem?_eq_none (by omega)]
+
+theorem mem_maskIdx (m : List Bool) (k : Nat) : k ∈ maskIdx m ↔ k < m.length ∧ m.getD k false = true := by
+  simp [maskIdx, List.mem_filter]
+
+/-- the edges reported by the scan, for ANY schedule that runs every iteration -/
+theorem crossingEdges_iff (c : K) (Z : List (K × K)) {order : List Nat}
+    (h : order.Perm (List.range Z.length)) (e : Nat) :
+    e ∈ crossingEdges c Z order ↔ ∃ z, Z[e]? = some z ∧ crosses c z = true := by
+  unfold crossingEdges
+  rw [mem_maskIdx, maskLoop_length, maskLoop_get]
+  have hm : e ∈ order ↔ e < Z.length := by rw [h.mem_iff]; simp
+  constructor
+  · rintro ⟨hl, hx⟩
+    simp only [Bool.and_eq_true, decide_eq_true_eq] at hx
+    unfold crossAt at hx
+    rw [List.getElem?_eq_getElem hl] at hx
+    exact ⟨Z[e], List.getElem?_eq_getElem hl, hx.2⟩
+  · rintro ⟨z, hz, hc⟩
+    have hl : e < Z.length := (List.getElem?_eq_some_iff.mp hz).1
+    refine ⟨hl, ?_⟩
+    simp only [Bool.and_eq_true, decide_eq_true_eq]
+    refine ⟨hm.mpr hl, ?_⟩
+    unfold crossAt; rw [hz]; exact hc
+
+theorem crossingEdges_lt (c : K) (Z : List (K × K)) (order : List Nat) :
+    ∀ e ∈ crossingEdges c Z order, e < Z.length := by
+  intro e he
+  unfold crossingEdges at he
+  rw [mem_maskIdx, maskLoop_length] at he
+  exact he.1
+
+/-- **cross-section ⇔ specification** (combinatorial part): with a correct `edge_face_connectivity`
+    (C03) and any schedule, face `f` is reported iff one of ITS edges is reported crossing -/
+theorem crosssec_faces_iff (c : K) (Z : List (K × K)) {order : List Nat}
+    {FE : Table} {N : List Nat} {EF : List (Int × Int)}
+    (hEF : Incidence.EdgeFaceOK FE N Z.length EF) (h : order.Perm (List.range Z.length))
+    (f : Nat) (hf : f < FE.length) :
+    Int.ofNat f ∈ facesAt c Z order EF ↔
+      ∃ e z, Int.ofNat e ∈ Incidence.faceEdgesOf FE N f ∧ Z[e]? = some z ∧ crosses c z = true := by
+  unfold facesAt
+  rw [edges_inclusive hEF (crossingEdges_lt c Z order) f hf]
+  constructor
+  · rintro ⟨e, he, hfe⟩
+    obtain ⟨z, hz, hc⟩ := (crossingEdges_iff c Z h e).mp he
+    exact ⟨e, z, hfe, hz, hc⟩
+  · rintro ⟨e, z, hfe, hz, hc⟩
+    exact ⟨e, (crossingEdges_iff c Z h e).mpr ⟨z, hz, hc⟩, hfe⟩
+
+end Scan
+
+/-- the sign test is "end nodes strictly on opposite sides of the parallel", in any ordered field -/
+theorem crosses_iff {K : Type} [Field K] [LinearOrder K] [IsStrictOrderedRing K] (c : K) (z : K × K) :
+    crosses c z = true ↔ (z.1 < c ∧ c < z.2) ∨ (z.2 < c ∧ c < z.1) := by
+  unfold crosses
+  rw [decide_eq_true_iff, mul_neg_iff]
+  simp only [sub_pos, sub_neg]
+  constructor
+  · rintro (⟨h1, h2⟩ | ⟨h1, h2⟩)
+    · right; exact ⟨h2, h1⟩
+    · left; exact ⟨h1, h2⟩
+  · rintro (⟨h1, h2⟩ | ⟨h1, h2⟩)
+    · right; exact ⟨h1, h2⟩
+    · left; exact ⟨h2, h1⟩
+
+/-- **C09, cross-section clause**: `f` is selected iff it has an edge whose end nodes lie strictly
+    on opposite sides of the parallel — for every schedule of the parallel loop -/
+theorem crosssec_iff {K : Type} [Field K] [LinearOrder K] [IsStrictOrderedRing K]
+    (c : K) (Z : List (K × K)) {order : List Nat}
+    {FE : Table} {N : List Nat} {EF : List (Int × Int)}
+    (hEF : Incidence.EdgeFaceOK FE N Z.length EF) (h : order.Perm (List.range Z.length))
+    (f : Nat) (hf : f < FE.length) :
+    Int.ofNat f ∈ facesAt c Z order EF ↔
+      ∃ e z, Int.ofNat e ∈ Incidence.faceEdgesOf FE N f ∧ Z[e]? = some z ∧
+        ((z.1 < c ∧ c < z.2) ∨ (z.2 < c ∧ c < z.1)) := by
+  rw [crosssec_faces_iff c Z hEF h f hf]
+  constructor
+  · rintro ⟨e, z, h1, h2, h3⟩; exact ⟨e, z, h1, h2, (crosses_iff c z).mp h3⟩
+  · rintro ⟨e, z, h1, h2, h3⟩; exact ⟨e, z, h1, h2, (crosses_iff c z).mpr h3⟩
+
+/-! ## 6. region selectors as predicates on the reference points -/
+
+section Sel
+variable {K : Type} [LT K] [LE K] [DecidableLT K] [DecidableLE K]
+
+/-- **box**: element `i` is selected iff its reference point passes the longitude and latitude
+    tests; the indices come out ascending, without repetition -/
+theorem box_iff (b : Box K) (lon lat : List K) (i : Nat) :
+    i ∈ boxSel b lon lat ↔ ∃ x y, lon[i]? = some x ∧ lat[i]? = some y ∧ inLon b x = true ∧ inLat b y = true := by
+  unfold boxSel
+  rw [List.mem_filter, List.mem_range]
+  unfold inBoxAt
+  constructor
+  · rintro ⟨hi, h⟩
+    cases hx : lon[i]? with
+    | none => rw [hx] at h; simp at h
+    | some x =>
+      cases hy : lat[i]? with
+      | none => rw [hx, hy] at h; simp at h
+      | some y =>
+        rw [hx, hy] at h
+        simp only [Bool.and_eq_true] at h
+        exact ⟨x, y, rfl, rfl, h.1, h.2⟩
+  · rintro ⟨x, y, hx, hy, h1, h2⟩
+    refine ⟨(List.getElem?_eq_some_iff.mp hx).1, ?_⟩
+    rw [hx, hy]; simp [h1, h2]
+
+theorem box_ascending (b : Box K) (lon lat : List K) : (boxSel b lon lat).Pairwise (· < ·) := by
+  unfold boxSel
+  exact List.Pairwise.filter _ List.pairwise_lt_range
+
+omit [LT K] [DecidableLT K] in
+/-- **circle**: element `i` is selected iff its distance is at most `r` -/
+theorem circle_iff (d : List K) (r : K) (i : Nat) :
+    i ∈ circleSel d r ↔ ∃ x, d[i]? = some x ∧ x ≤ r := by
+  unfold circleSel
+  rw [List.mem_filter, List.mem_range]
+  constructor
+  · rintro ⟨hi, h⟩
+    rw [List.getElem?_eq_getElem hi] at h
+    exact ⟨d[i], List.getElem?_eq_getElem hi, by simpa using h⟩
+  · rintro ⟨x, hx, hr⟩
+    refine ⟨(List.getElem?_eq_some_iff.mp hx).1, ?_⟩
+    rw [hx]; simpa using hr
+
+end Sel
+
+/-- what the longitude test of a box means: the open interval, or — when the box spans the
+    antimeridian — the two half-open pieces `[-180, lon1) ∪ [lon0, 180)`, i.e. for a valid longitude
+    everything outside the gap `[lon1, lon0)` -/
+theorem inLon_iff {K : Type} [LinearOrder K] (b : Box K) (x : K)
+    (hx : b.m180 ≤ x ∧ x < b.p180) :
+    inLon b x = true ↔ if b.lon1 < b.lon0 then ¬ (b.lon1 ≤ x ∧ x < b.lon0) else (b.lon0 < x ∧ x < b.lon1) := by
+  unfold inLon
+  by_cases hb : b.lon1 < b.lon0
+  · rw [if_pos hb, if_pos hb]
+    simp only [Bool.or_eq_true, Bool.and_eq_true, decide_eq_true_eq]
+    constructor
+    · rintro (⟨_, h2⟩ | ⟨h1, _⟩)
+      · intro ⟨h3, _⟩; exact absurd h2 (not_lt.mpr h3)
+      · intro ⟨_, h4⟩; exact absurd h4 (not_lt.mpr h1)
+    · intro h
+      by_cases h1 : x < b.lon1
+      · left; exact ⟨hx.1, h1⟩
+      · right
+        have h1' : b.lon1 ≤ x := not_lt.mp h1
+        have : ¬ x < b.lon0 := fun h2 => h ⟨h1', h2⟩
+        exact ⟨not_lt.mp this, hx.2⟩
+  · rw [if_neg hb, if_neg hb]
+    simp only [Bool.and_eq_true, decide_eq_true_eq]
+
+/-! ### k nearest -/
+
+section Knn
+variable {K : Type} [LinearOrder K]
+
+theorem insByDist_perm (x : K × Nat) (l : List (K × Nat)) : (insByDist x l).Perm (x :: l) := by
+  induction l with
+  | nil => exact List.Perm.refl _
+  | cons y ys ih =>
+    unfold insByDist
+    split
+    · exact ((List.Perm.cons y ih).trans (List.Perm.swap x y ys))
+    · exact List.Perm.refl _
+
+theorem sortByDist_perm (l : List (K × Nat)) : (sortByDist l).Perm l := by
+  induction l with
+  | nil => exact List.Perm.refl _
+  | cons x xs ih =>
+    show (insByDist x (sortByDist xs)).Perm (x :: xs)
+    exact (insByDist_perm x _).trans (List.Perm.cons x ih)
+
+theorem insByDist_sorted (x : K × Nat) (l : List (K × Nat))
+    (h : l.Pairwise (fun a b => a.1 ≤ b.1)) : (insByDist x l).Pairwise (fun a b => a.1 ≤ b.1) := by
+  induction l with
+  | nil => simp [insByDist]
+  | cons y ys ih =>
+    have hy := List.pairwise_cons.mp h
+    unfold insByDist
+    split
+    · rename_i hyx
+      refine List.pairwise_cons.mpr ⟨?_, ih hy.2⟩
+      intro b hb
+      rcases List.mem_cons.mp ((insByDist_perm x ys).mem_iff.mp hb) with rfl | hb'
+      · exact hyx
+      · exact hy.1 b hb'
+    · rename_i hyx
+      have hxy : x.1 ≤ y.1 := le_of_lt (not_le.mp hyx)
+      refine List.pairwise_cons.mpr ⟨?_, h⟩
+      intro b hb
+      rcases List.mem_cons.mp hb with rfl | hb'
+      · exact hxy
+      · exact le_trans hxy (hy.1 b hb')
+
+theorem sortByDist_sorted (l : List (K × Nat)) : (sortByDist l).Pairwise (fun a b => a.1 ≤ b.1) := by
+  induction l with
+  | nil => simp [sortByDist]
+  | cons x xs ih => exact insByDist_sorted x _ ih
+
+theorem zipIdx_snd_range {α} (d : List α) : d.zipIdx.map (·.2) = List.range d.length := by
+  apply List.ext_getElem
+  · simp
+  · intro i h1 h2; simp
+
+/-- **k nearest**: `k` (or all) distinct valid elements, none of them farther than an element
+    that was left out -/
+theorem knn_spec (d : List K) (k : Nat) :
+    (knnSel d k).Nodup ∧ (knnSel d k).length = min k d.length ∧ (∀ i ∈ knnSel d k, i < d.length) ∧
+    ∀ i ∈ knnSel d k, ∀ j, j < d.length → j ∉ knnSel d k →
+      ∀ x y, d[i]? = some x → d[j]? = some y → x ≤ y := by
+  have hperm := sortByDist_perm d.zipIdx
+  have hsorted := sortByDist_sorted d.zipIdx
+  have hall : ((sortByDist d.zipIdx).map (·.2)).Perm (List.range d.length) := by
+    rw [← zipIdx_snd_range]; exact hperm.map _
+  have hnd : ((sortByDist d.zipIdx).map (·.2)).Nodup := hall.nodup_iff.mpr List.nodup_range
+  have htake : knnSel d k = ((sortByDist d.zipIdx).map (·.2)).take k := by
+    unfold knnSel; rw [List.map_take]
+  have hmemz : ∀ p ∈ sortByDist d.zipIdx, p.2 < d.length ∧ d[p.2]? = some p.1 := by
+    intro p hp
+    have hp' := hperm.mem_iff.mp hp
+    have := List.mem_zipIdx (x := p.1) (i := p.2) (k := 0) hp'
+    simp only [Nat.zero_le, Nat.zero_add, Nat.sub_zero, true_and] at this
+    exact ⟨this.1, by rw [List.getElem?_eq_getElem this.1]; exact congrArg some this.2.symm⟩
+  refine ⟨?_, ?_, ?_, ?_⟩
+  · rw [htake]; exact (List.take_sublist _ _).nodup hnd
+  · rw [htake, List.length_take, List.length_map, hperm.length_eq]; simp
+  · intro i hi
+    rw [htake] at hi
+    have := hall.mem_iff.mp ((List.take_sublist _ _).subset hi)
+    simpa using this
+  · intro i hi j hj hjn x y hx hy
+    -- split the sorted list at k
+    have hsplit := List.take_append_drop k (sortByDist d.zipIdx)
+    rw [← hsplit, List.pairwise_append] at hsorted
+    unfold knnSel at hi hjn
+    rcases List.mem_map.mp hi with ⟨p, hp, rfl⟩
+    have hpin := hmemz p ((List.take_sublist _ _).subset hp)
+    -- (y, j) is in the sorted list, not among the first k
+    have hjmem : (y, j) ∈ sortByDist d.zipIdx := by
+      apply hperm.mem_iff.mpr
+      have hjl := hj
+      have : d[j] = y := by
+        have := List.getElem?_eq_getElem hjl ▸ hy
+        exact Option.some.inj this
+      rw [← this]
+      exact List.mk_mem_zipIdx_iff_getElem?.mpr (by simp [List.getElem?_eq_getElem hjl])
+    rw [← hsplit, List.mem_append] at hjmem
+    rcases hjmem with hq | hq
+    · exact absurd (List.mem_map.mpr ⟨(y, j), hq, rfl⟩) hjn
+    · have := hsorted.2.2 p hp (y, j) hq
+      have hpx : p.1 = x := by
+        have := hpin.2; rw [hx] at this; exact (Option.some.inj this).symm
+      rw [← hpx]; exact this
+
+end Knn
+
+/-! ## 7. histories: whatever was materialised on the source before, the subset answers every
+    request, with the same tables -/
+
+/-- the tables a grid's derived variables are functions of -/
+structure Base where
+  w : Nat
+  t : Table
+  EN : List (Int × Int)
+  FE : Table
+
+def Base.N (B : Base) : List Nat := nNodesPerFace B.t
+def Base.NF (B : Base) : Table := Incidence.nodeFace (nNodeOf B.t) B.t
+def Base.EF (B : Base) : List (Int × Int) := Incidence.edgeFace B.FE B.N B.EN.length
+def Base.FF (B : Base) : Table := Incidence.faceFace B.t.length B.w B.EF
+def Base.H (B : Base) : List Nat := Incidence.holeEdges B.EF
+
+/-- what every request on a grid with base `B` reports -/
+def Base.view (B : Base) : View :=
+  { en := B.EN, fe := B.FE, npf := B.N, nf := B.NF, ef := B.EF, ff := B.FF, holes := B.H }
+
+def optIs {α} (o : Option α) (v : α) : Prop := o = none ∨ o = some v
+
+/-- coherence of a grid's dataset: every materialised variable holds the value determined by the
+    base tables, and the edge tables are either both there or can still be built consistently
+    (the `inverse_indices` attribute belongs to THIS grid's faces) -/
+structure Coh (B : Base) (g : State) : Prop where
+  w : g.w = B.w
+  t : g.t = B.t
+  en : optIs g.en B.EN
+  fe : optIs g.fe B.FE
+  npf : optIs g.npf B.N
+  nf : optIs g.nf B.NF
+  ef : optIs g.ef B.EF
+  ff : optIs g.ff B.FF
+  holes : optIs g.holes B.H
+  ready : (g.en = some B.EN ∧ g.fe = some B.FE) ∨
+    (g.fe = none ∧ B.EN = edges B.t ∧ B.FE = reshape B.w (faceEdges B.t).flatten ∧
+      (faceEdges B.t).flatten.length = B.t.length * B.w ∧
+      (g.en = none ∨ (g.en = some B.EN ∧ g.inv = some (faceEdges B.t).flatten)))
+
+theorem optIs_some {α} {o : Option α} {v : α} (h : optIs o v) (hs : o.isSome = true) : o = some v := by
+  rcases h with h | h
+  · rw [h] at hs; cases hs
+  · exact h
+
+theorem getEN_coh {B : Base} {g : State} (h : Coh B g) :
+    Coh B (getEN g) ∧ (getEN g).en = some B.EN := by
+  unfold getEN
+  by_cases hs : g.en.isSome = true
+  · rw [if_pos hs]; exact ⟨h, optIs_some h.en hs⟩
+  · rw [if_neg hs]
+    have hnone : g.en = none := by simpa using hs
+    rcases h.ready with ⟨h1, _⟩ | ⟨hfe, hE, hF, hL, _⟩
+    · rw [hnone] at h1; cases h1
+    · have e1 : (popEN g).en = some B.EN := by simp [popEN, h.t, hE]
+      refine ⟨{ h with en := Or.inr e1, fe := h.fe, ready := Or.inr ⟨by simpa [popEN] using hfe, hE, hF, hL, Or.inr ⟨e1, by simp [popEN, h.t]⟩⟩ }, e1⟩
+
+theorem getFE_coh {B : Base} {g : State} (h : Coh B g) :
+    ∃ g', getFE g = some g' ∧ Coh B g' ∧ g'.en = some B.EN ∧ g'.fe = some B.FE := by
+  unfold getFE
+  by_cases hs : g.fe.isSome = true
+  · rw [if_pos hs]
+    have hfe := optIs_some h.fe hs
+    rcases h.ready with ⟨h1, _⟩ | ⟨h1, _⟩
+    · exact ⟨g, rfl, h, h1, hfe⟩
+    · rw [h1] at hfe; cases hfe
+  · rw [if_neg hs]
+    have hnone : g.fe = none := by simpa using hs
+    rcases h.ready with ⟨_, h2⟩ | ⟨_, hE, hF, hL, hen⟩
+    · rw [hnone] at h2; cases h2
+    · -- after the optional rebuild, `en` and `inv` are this grid's
+      have key : ∃ g1 : State, (if (g.en.isNone || g.inv.isNone) = true then popEN g else g) = g1 ∧
+          g1.en = some B.EN ∧ g1.inv = some (faceEdges B.t).flatten ∧ g1.t = B.t ∧ g1.w = B.w ∧
+          g1.fe = none ∧ g1.npf = g.npf ∧ g1.nf = g.nf ∧ g1.ef = g.ef ∧ g1.ff = g.ff ∧ g1.holes = g.holes := by
+        rcases hen with hen | ⟨hen, hinv⟩
+        · refine ⟨popEN g, by simp [hen], ?_⟩
+          simp [popEN, h.t, hE, h.w, hnone]
+        · refine ⟨g, by simp [hen, hinv], hen, hinv, h.t, h.w, hnone, rfl, rfl, rfl, rfl, rfl⟩
+      obtain ⟨g1, hg1, e1, e2, e3, e4, e5, e6, e7, e8, e9, e10⟩ := key
+      simp only [] at hg1 ⊢
+      rw [hg1]
+      simp only [e2, e3, e4]
+      rw [if_pos hL]
+      refine ⟨_, rfl, ?_, by simp [e1], by simp [hF]⟩
+      exact { w := rfl, t := rfl, en := Or.inr (by simpa using e1),
+              fe := Or.inr (by simp [hF]), npf := by simpa [e6] using h.npf, nf := by simpa [e7] using h.nf,
+              ef := by simpa [e8] using h.ef, ff := by simpa [e9] using h.ff,
+              holes := by simpa [e10] using h.holes,
+              ready := Or.inl ⟨by simpa using e1, by simp [hF]⟩ }
+
+theorem getNPF_coh {B : Base} {g : State} (h : Coh B g) :
+    Coh B (getNPF g) ∧ (getNPF g).npf = some B.N ∧ (getNPF g).en = g.en ∧ (getNPF g).fe = g.fe := by
+  unfold getNPF
+  by_cases hs : g.npf.isSome = true
+  · rw [if_pos hs]; exact ⟨h, optIs_some h.npf hs, rfl, rfl⟩
+  · rw [if_neg hs]
+    have e : some (nNodesPerFace g.t) = some B.N := by rw [h.t]; rfl
+    exact ⟨{ h with npf := Or.inr e }, e, rfl, rfl⟩
+
+theorem getNF_coh {B : Base} {g : State} (h : Coh B g) :
+    Coh B (getNF g) ∧ (getNF g).nf = some B.NF := by
+  unfold getNF
+  by_cases hs : g.nf.isSome = true
+  · rw [if_pos hs]; exact ⟨h, optIs_some h.nf hs⟩
+  · rw [if_neg hs]
+    have e : some (Incidence.nodeFace (nNodeOf g.t) g.t) = some B.NF := by rw [h.t]; rfl
+    exact ⟨{ h with nf := Or.inr e }, e⟩
+
+theorem getEF_coh {B : Base} {g : State} (h : Coh B g) :
+    ∃ g', getEF g = some g' ∧ Coh B g' ∧ g'.ef = some B.EF := by
+  unfold getEF
+  by_cases hs : g.ef.isSome = true
+  · rw [if_pos hs]; exact ⟨g, rfl, h, optIs_some h.ef hs⟩
+  · rw [if_neg hs]
+    obtain ⟨g1, hg1, c1, en1, fe1⟩ := getFE_coh h
+    obtain ⟨c2, en2⟩ := getEN_coh c1
+    obtain ⟨c3, n3, en3, fe3⟩ := getNPF_coh c2
+    have hEN : getEN g1 = g1 := by unfold getEN; rw [en1]; rfl
+    rw [hEN] at c3 n3 en3 fe3
+    simp only [hg1, Option.bind_eq_bind, Option.bind_some, hEN, Option.pure_def]
+    have e : some (Incidence.edgeFace ((getNPF g1).fe.getD []) ((getNPF g1).npf.getD [])
+        (((getNPF g1).en.getD []).length)) = some B.EF := by
+      rw [fe3, fe1, n3, en3, en1]; rfl
+    exact ⟨_, rfl, { c3 with ef := Or.inr e }, e⟩
+
+theorem getFF_coh {B : Base} {g : State} (h : Coh B g) :
+    ∃ g', getFF g = some g' ∧ Coh B g' ∧ g'.ff = some B.FF := by
+  unfold getFF
+  by_cases hs : g.ff.isSome = true
+  · rw [if_pos hs]; exact ⟨g, rfl, h, optIs_some h.ff hs⟩
+  · rw [if_neg hs]
+    obtain ⟨g1, hg1, c1, ef1⟩ := getEF_coh h
+    simp only [hg1, Option.bind_eq_bind, Option.bind_some, Option.pure_def]
+    have e : some (Incidence.faceFace g1.t.length g1.w (g1.ef.getD [])) = some B.FF := by
+      rw [ef1, c1.t, c1.w]; rfl
+    exact ⟨_, rfl, { c1 with ff := Or.inr e }, e⟩
+
+theorem getHoles_coh {B : Base} {g : State} (h : Coh B g) :
+    ∃ g', getHoles g = some g' ∧ Coh B g' ∧ g'.holes = some B.H := by
+  unfold getHoles
+  by_cases hs : g.holes.isSome = true
+  · rw [if_pos hs]; exact ⟨g, rfl, h, optIs_some h.holes hs⟩
+  · rw [if_neg hs]
+    obtain ⟨g1, hg1, c1, ef1⟩ := getEF_coh h
+    simp only [hg1, Option.bind_eq_bind, Option.bind_some, Option.pure_def]
+    have e : some (Incidence.holeEdges (g1.ef.getD [])) = some B.H := by rw [ef1]; rfl
+    exact ⟨_, rfl, { c1 with holes := Or.inr e }, e⟩
+
+/-- no request on a coherent grid raises, and coherence is kept -/
+theorem request_coh {B : Base} {g : State} (h : Coh B g) (v : Var) :
+    ∃ g', request g v = some g' ∧ Coh B g' := by
+  cases v with
+  | edgeNode => exact ⟨_, rfl, (getEN_coh h).1⟩
+  | faceEdge => obtain ⟨g', h1, h2, _⟩ := getFE_coh h; exact ⟨g', h1, h2⟩
+  | nPerFace => exact ⟨_, rfl, (getNPF_coh h).1⟩
+  | nodeFace => exact ⟨_, rfl, (getNF_coh h).1⟩
+  | edgeFace => obtain ⟨g', h1, h2, _⟩ := getEF_coh h; exact ⟨g', h1, h2⟩
+  | faceFace => obtain ⟨g', h1, h2, _⟩ := getFF_coh h; exact ⟨g', h1, h2⟩
+  | holes => obtain ⟨g', h1, h2, _⟩ := getHoles_coh h; exact ⟨g', h1, h2⟩
+
+theorem runHist_coh {B : Base} {g : State} (h : Coh B g) (hist : List Var) :
+    ∃ g', runHist g hist = some g' ∧ Coh B g' := by
+  induction hist generalizing g with
+  | nil => exact ⟨g, rfl, h⟩
+  | cons v vs ih =>
+    obtain ⟨g1, h1, c1⟩ := request_coh h v
+    obtain ⟨g2, h2, c2⟩ := ih c1
+    exact ⟨g2, by simp [runHist, h1, h2], c2⟩
+
+/-- **a coherent grid reports its base's tables, whatever is requested first** -/
+theorem view_coh {B : Base} {g : State} (h : Coh B g) (order : List Var) :
+    g.view order = some B.view := by
+  obtain ⟨g0, h0, c0⟩ := runHist_coh h order
+  have c1 := getEN_coh c0
+  obtain ⟨g2, h2, c2, _, fe2⟩ := getFE_coh c1.1
+  have c3 := getNPF_coh c2
+  have c4 := getNF_coh c3.1
+  obtain ⟨g5, h5, c5, ef5⟩ := getEF_coh c4.1
+  obtain ⟨g6, h6, c6, ff6⟩ := getFF_coh c5
+  obtain ⟨g7, h7, c7, ho7⟩ := getHoles_coh c6
+  simp only [State.view, h0, request, Option.bind_eq_bind, Option.bind_some, h2, h5, h6, h7,
+    Option.pure_def, c1.2, fe2, c3.2.1, c4.2, ef5, ff6, ho7, Option.getD_some]
+  rfl
+
+/-- the base of the subset -/
+def Base.slice (B : Base) (idx : List Nat) : Base :=
+  let u := sliceFaces { t := B.t, EN := B.EN, FE := B.FE } idx
+  { w := B.w, t := u.t, EN := u.EN, FE := u.FE }
+
+theorem nNodesRow_map {g : Int → Int} (hg : ∀ x, g x = FILL ↔ x = FILL) (r : List Int) :
+    nNodesRow (r.map g) = nNodesRow r := by
+  unfold nNodesRow
+  have : r.map g ++ [FILL] = (r ++ [FILL]).map g := by simp [(hg FILL).mpr rfl]
+  rw [this]
+  generalize r ++ [FILL] = l
+  induction l with
+  | nil => rfl
+  | cons a l ih =>
+    simp only [List.map_cons, List.idxOf_cons]
+    by_cases ha : a = FILL
+    · subst ha
+      have : g FILL = FILL := (hg FILL).mpr rfl
+      simp [this]
+    · have h1 : g a ≠ FILL := fun h => ha ((hg a).mp h)
+      have e1 : (g a == FILL) = false := by simpa using h1
+      have e2 : (a == FILL) = false := by simpa using ha
+      rw [e1, e2]; simp [ih]
+
+/-- **slicing a coherent grid gives a coherent grid** whose base is the slice of the base: nothing
+    stale travels (repaired slicer) -/
+theorem slice_coh {B : Base} {g : State} (h : Coh B g) {idx : List Nat}
+    (hidx : ∀ f ∈ idx, f < B.t.length) :
+    ∃ g', g.slice idx = some g' ∧ Coh (B.slice idx) g' := by
+  obtain ⟨g1, h1, c1, en1, fe1⟩ := getFE_coh h
+  have hEN : getEN g1 = g1 := by unfold getEN; rw [en1]; rfl
+  have hsrc : g1.src = { t := B.t, EN := B.EN, FE := B.FE } := by
+    simp [State.src, c1.t, en1, fe1]
+  unfold State.slice State.sliceWith
+  rw [h1]
+  simp only [Option.bind_eq_bind, Option.bind_some, hEN, Option.pure_def, Bool.false_eq_true, if_false]
+  refine ⟨_, rfl, ?_⟩
+  rw [hsrc]
+  have hnpf : optIs (g1.npf.map (fun N => idx.map (fun f => N.getD f 0))) (B.slice idx).N := by
+    rcases c1.npf with hn | hn
+    · left; rw [hn]; rfl
+    · right
+      rw [hn]
+      simp only [Option.map_some, Option.some.injEq, Base.N, Base.slice, sliceFaces, nNodesPerFace,
+        List.map_map]
+      apply List.map_congr_left
+      intro f hf
+      have hft := hidx f hf
+      simp only [Function.comp]
+      rw [nNodesRow_map (fun _ => remap_eq_fill_iff)]
+      simp [List.getD, List.getElem?_map, List.getElem?_eq_getElem hft, rowAt]
+  exact { w := c1.w, t := rfl, en := Or.inr rfl, fe := Or.inr rfl, npf := hnpf,
+          nf := Or.inl rfl, ef := Or.inl rfl, ff := Or.inl rfl, holes := Or.inl rfl,
+          ready := Or.inl ⟨rfl, rfl⟩ }
+
+/-- **C09, histories.**  For every coherent source, EVERY history of requests on it before slicing
+    and EVERY order of requests on the subset afterwards: nothing raises and the subset reports the
+    tables determined by the sliced base alone. -/
+theorem slice_history_independent {B : Base} {g : State} (h : Coh B g) {idx : List Nat}
+    (hidx : ∀ f ∈ idx, f < B.t.length) (hist order : List Var) :
+    ((runHist g hist).bind (fun g => g.slice idx)).bind (fun u => u.view order)
+      = some (B.slice idx).view := by
+  obtain ⟨g1, h1, c1⟩ := runHist_coh h hist
+  obtain ⟨u, h2, c2⟩ := slice_coh c1 hidx
+  rw [h1, Option.bind_some, h2, Option.bind_some]
+  exact view_coh c2 order
+
+theorem rowPairs_length (r : List Int) : (rowPairs r).length = r.length := by
+  unfold rowPairs closeRow
+  simp
+
+theorem flatten_length_const (T : Table) (w : Nat) (h : ∀ r ∈ T, r.length = w) :
+    T.flatten.length = T.length * w := by
+  induction T with
+  | nil => simp
+  | cons r T ih =>
+    rw [List.flatten_cons, List.length_append, h r (by simp), ih (fun r hr => h r (by simp [hr]))]
+    simp [Nat.succ_mul, Nat.add_comm]
+
+/-- a freshly constructed grid (no derived variable yet) with rectangular faces is coherent -/
+theorem coh_fresh (w : Nat) (t : Table) (hw : ∀ r ∈ t, r.length = w) :
+    Coh { w := w, t := t, EN := edges t, FE := reshape w (faceEdges t).flatten } { w := w, t := t } := by
+  refine { w := rfl, t := rfl, en := Or.inl rfl, fe := Or.inl rfl, npf := Or.inl rfl, nf := Or.inl rfl,
+           ef := Or.inl rfl, ff := Or.inl rfl, holes := Or.inl rfl,
+           ready := Or.inr ⟨rfl, rfl, rfl, ?_, Or.inl rfl⟩ }
+  have : (faceEdges t).length = t.length := by simp [faceEdges]
+  rw [← this]
+  apply flatten_length_const
+  intro r hr
+  unfold faceEdges at hr
+  rcases List.mem_map.mp hr with ⟨r0, hr0, rfl⟩
+  rw [List.length_map, rowPairs_length, hw r0 hr0]
+
+/-- a grid that ships its own edge tables is coherent with them -/
+theorem coh_supplied (w : Nat) (t : Table) (EN : List (Int × Int)) (FE : Table) :
+    Coh { w := w, t := t, EN := EN, FE := FE } { w := w, t := t, en := some EN, fe := some FE } :=
+  { w := rfl, t := rfl, en := Or.inr rfl, fe := Or.inr rfl, npf := Or.inl rfl, nf := Or.inl rfl,
+    ef := Or.inl rfl, ff := Or.inl rfl, holes := Or.inl rfl, ready := Or.inl ⟨rfl, rfl⟩ }
+
+/-- the incidence tables the subset reports are C03's builders run on the subset's own tables, so
+    C03's theorem applies whenever its precondition holds for the subset (the precondition is
+    evaluated by the driver on every generated case) -/
+theorem subset_incidence (B : Base) (idx : List Nat)
+    (hpre : Incidence.Pre (nNodeOf (B.slice idx).t) (B.slice idx).t (B.slice idx).FE (B.slice idx).N
+      (B.slice idx).EN.length) :
+    Incidence.Spec (nNodeOf (B.slice idx).t) (B.slice idx).t (B.slice idx).FE (B.slice idx).N
+      (B.slice idx).EN.length
+      { nodeFace := (B.slice idx).view.nf, edgeFace := (B.slice idx).view.ef,
+        faceFace := (B.slice idx).view.ff, holes := (B.slice idx).view.holes } := by
+  have := C03.build_meets_spec (w := (B.slice idx).w) hpre
+  exact this
+
+/-! ## 7b. node / edge selections end to end -/
+
+theorem nodup_map_toNat {l : List Int} (hn : l.Nodup) (h0 : ∀ x ∈ l, 0 ≤ x) : (l.map Int.toNat).Nodup := by
+  unfold List.Nodup at hn ⊢
+  rw [List.pairwise_map]
+  refine List.Pairwise.imp_of_mem ?_ hn
+  intro a b ha hb hab heq
+  apply hab
+  have := h0 a ha
+  have := h0 b hb
+  omega
+
+/-- the faces touching the selected nodes form a valid duplicate-free request, so everything
+    proved for face selections holds for node selections -/
+theorem node_selection_pre {n w : Nat} {s : Src} {NF : Table} {ind : List Nat}
+    (hstd : StdForm n w s.t) (hspec : Edges.Spec s.t w ⟨s.EN, s.FE, nNodesPerFace s.t⟩)
+    (hNF : Incidence.NodeFaceOK n s.t NF) (hind : ∀ v ∈ ind, v < n) :
+    Pre n w s ((facesOfNodes NF ind).map Int.toNat) := by
+  have hv := nodes_faces_valid hNF hind
+  refine ⟨hstd, hspec, ?_, nodup_map_toNat (nodup_sel _) (fun x hx => (hv x hx).1)⟩
+  intro f hf
+  rcases List.mem_map.mp hf with ⟨x, hx, rfl⟩
+  have := hv x hx
+  omega
+
+theorem slice_nodes_meets_spec {n w : Nat} {s : Src} {NF : Table} {ind : List Nat}
+    (hstd : StdForm n w s.t) (hspec : Edges.Spec s.t w ⟨s.EN, s.FE, nNodesPerFace s.t⟩)
+    (hNF : Incidence.NodeFaceOK n s.t NF) (hind : ∀ v ∈ ind, v < n) :
+    Slice.Spec s w ((facesOfNodes NF ind).map Int.toNat) (sliceNodes s NF ind).obs :=
+  slice_meets_spec (node_selection_pre hstd hspec hNF hind)
+
+theorem edges_faces_valid {FE : Table} {N : List Nat} {nEdge : Nat} {EF : List (Int × Int)}
+    (hEF : Incidence.EdgeFaceOK FE N nEdge EF) {ind : List Nat} (hind : ∀ e ∈ ind, e < nEdge) :
+    ∀ x ∈ facesOfEdges EF ind, 0 ≤ x ∧ x < FE.length := by
+  intro x hx
+  obtain ⟨hg, hne⟩ := mem_sel.mp hx
+  obtain ⟨e, he, hxr⟩ := mem_gather.mp hg
+  have hen := hind e he
+  rw [rowAt_pairRows (by rw [hEF.1]; exact hen)] at hxr
+  rcases (hEF.2 e hen).2.2.1 x hxr with h | h
+  · exact absurd h hne
+  · exact h
+
+theorem edge_selection_pre {n w : Nat} {s : Src} {EF : List (Int × Int)} {ind : List Nat}
+    (hstd : StdForm n w s.t) (hspec : Edges.Spec s.t w ⟨s.EN, s.FE, nNodesPerFace s.t⟩)
+    (hEF : Incidence.EdgeFaceOK s.FE (nNodesPerFace s.t) s.EN.length EF)
+    (hind : ∀ e ∈ ind, e < s.EN.length) :
+    Pre n w s ((facesOfEdges EF ind).map Int.toNat) := by
+  have hv := edges_faces_valid hEF hind
+  have hlen : s.FE.length = s.t.length := hspec.2.2.2.1.1
+  refine ⟨hstd, hspec, ?_, nodup_map_toNat (nodup_sel _) (fun x hx => (hv x hx).1)⟩
+  intro f hf
+  rcases List.mem_map.mp hf with ⟨x, hx, rfl⟩
+  have := hv x hx
+  omega
+
+theorem slice_edges_meets_spec {n w : Nat} {s : Src} {EF : List (Int × Int)} {ind : List Nat}
+    (hstd : StdForm n w s.t) (hspec : Edges.Spec s.t w ⟨s.EN, s.FE, nNodesPerFace s.t⟩)
+    (hEF : Incidence.EdgeFaceOK s.FE (nNodesPerFace s.t) s.EN.length EF)
+    (hind : ∀ e ∈ ind, e < s.EN.length) :
+    Slice.Spec s w ((facesOfEdges EF ind).map Int.toNat) (sliceEdges s EF ind).obs :=
+  slice_meets_spec (edge_selection_pre hstd hspec hEF hind)
+
+/-! ## 7c. the travelling edge tables ARE the tables a fresh construction on the subset would give -/
+
+/-- two strictly sorted lists with the same members are equal -/
+theorem sorted_ext {l1 l2 : List (Int × Int)} (h1 : SortedBy pairLt l1) (h2 : SortedBy pairLt l2)
+    (hm : ∀ x, x ∈ l1 ↔ x ∈ l2) : l1 = l2 := by
+  have ST := pairLt_strictTotal
+  induction l1 generalizing l2 with
+  | nil =>
+    cases l2 with
+    | nil => rfl
+    | cons b l2 => exact absurd ((hm b).mpr (by simp)) (by simp)
+  | cons a l1 ih =>
+    cases l2 with
+    | nil => exact absurd ((hm a).mp (by simp)) (by simp)
+    | cons b l2 =>
+      have p1 := List.pairwise_cons.mp h1
+      have p2 := List.pairwise_cons.mp h2
+      have hab : a = b := by
+        rcases List.mem_cons.mp ((hm a).mp (by simp)) with h | h
+        · exact h
+        · rcases List.mem_cons.mp ((hm b).mpr (by simp)) with h' | h'
+          · exact h'.symm
+          · have x1 := p2.1 a h
+            have x2 := p1.1 b h'
+            have := ST.trans _ _ _ x2 x1
+            rw [ST.irrefl] at this; cases this
+      subst hab
+      congr 1
+      apply ih p1.2 p2.2
+      intro x
+      constructor
+      · intro hx
+        rcases List.mem_cons.mp ((hm x).mp (List.mem_cons_of_mem _ hx)) with h | h
+        · have := p1.1 x hx; rw [h, ST.irrefl] at this; cases this
+        · exact h
+      · intro hx
+        rcases List.mem_cons.mp ((hm x).mpr (List.mem_cons_of_mem _ hx)) with h | h
+        · have := p2.1 x hx; rw [h, ST.irrefl] at this; cases this
+        · exact h
+
+theorem sorted_edges (t : Table) : SortedBy pairLt (edges t) := by
+  unfold edges uniqAll uniqPair
+  exact (sorted_sortUniqBy pairLt_strictTotal _).filter _
+
+theorem sortPair_of_le {p : Int × Int} (h : p.1 ≤ p.2) : sortPair p = p := by
+  unfold sortPair; rw [if_pos h]
+
+theorem le_of_sortPair {p : Int × Int} (h : sortPair p = p) : p.1 ≤ p.2 := by
+  unfold sortPair at h
+  by_cases hp : p.1 ≤ p.2
+  · exact hp
+  · rw [if_neg hp] at h
+    have : p.2 = p.1 := congrArg Prod.fst h
+    omega
+
+theorem remap_le {l : List Int} {a b : Int} (ha : a ∈ sel l) (hb : b ∈ sel l) (hab : a ≤ b) :
+    remap (sel l) a ≤ remap (sel l) b := by
+  rcases Int.lt_or_eq_of_le hab with h | h
+  · exact Int.le_of_lt (remap_mono ha hb h)
+  · rw [h]
+
+theorem pairLt_remap {l : List Int} {p q : Int × Int} (hp : p.1 ∈ sel l ∧ p.2 ∈ sel l)
+    (hq : q.1 ∈ sel l ∧ q.2 ∈ sel l) (h : pairLt p q = true) :
+    pairLt (mapPair (remap (sel l)) p) (mapPair (remap (sel l)) q) = true := by
+  simp only [pairLt, Bool.or_eq_true, Bool.and_eq_true, decide_eq_true_eq] at h ⊢
+  rcases h with h | ⟨h1, h2⟩
+  · left; exact remap_mono hp.1 hq.1 h
+  · right
+    refine ⟨by show remap _ p.1 = remap _ q.1; rw [h1], remap_mono hp.2 hq.2 h2⟩
+
+section Fresh
+variable {n w : Nat} {s : Src} {idx : List Nat}
+
+/-- a selected edge is a valid row of the source's edge table -/
+theorem edge_valid (h : Pre n w s idx) {e : Int} (he : e ∈ edgeSel s idx) :
+    0 ≤ e ∧ ∃ hl : e.toNat < s.EN.length, edgeAt s.EN e = s.EN[e.toNat] := by
+  obtain ⟨_, _, _, _, _, _, e0, he0, _⟩ := edge_slot h he
+  obtain ⟨h0, hl, hg⟩ := getI?_some he0
+  refine ⟨h0, hl, ?_⟩
+  unfold edgeAt; rw [he0]
+  have := List.getElem?_eq_getElem hl ▸ hg
+  exact (Option.some.inj this).symm
+
+theorem sub_EN_sorted (h : Pre n w s idx) (hb : s.EN = edges s.t) :
+    SortedBy pairLt (sliceFaces s idx).EN := by
+  show List.Pairwise _ ((edgeSel s idx).map _)
+  rw [List.pairwise_map]
+  refine List.Pairwise.imp_of_mem ?_ (sorted_sel (gather s.FE idx))
+  intro a b ha hb' hab
+  obtain ⟨a0, hal, hEa⟩ := edge_valid h ha
+  obtain ⟨b0, hbl, hEb⟩ := edge_valid h hb'
+  have hsrt : SortedBy pairLt s.EN := by rw [hb]; exact sorted_edges _
+  have hlt : a.toNat < b.toNat := by omega
+  have := List.pairwise_iff_getElem.mp hsrt _ _ hal hbl hlt
+  rw [hEa, hEb]
+  rw [← hEa] at this ⊢
+  rw [← hEb] at this ⊢
+  exact pairLt_remap (edge_nodes_selected h ha) (edge_nodes_selected h hb') this
+
+theorem sub_EN_pairs_sorted (h : Pre n w s idx) (hb : s.EN = edges s.t) :
+    ∀ x ∈ (sliceFaces s idx).EN, sortPair x = x := by
+  intro x hx
+  rcases List.mem_map.mp hx with ⟨e, he, rfl⟩
+  obtain ⟨_, hl, hE⟩ := edge_valid h he
+  have hsp : sortPair (edgeAt s.EN e) = edgeAt s.EN e := by
+    rw [hE]
+    have hm : s.EN[e.toNat] ∈ edges s.t := by rw [← hb]; exact List.getElem_mem hl
+    obtain ⟨r, _, hs⟩ := C02.edge_is_seg h.1 _ hm
+    exact rowSegs_sorted r _ hs
+  obtain ⟨h1, h2⟩ := edge_nodes_selected h he
+  exact sortPair_of_le (remap_le h1 h2 (le_of_sortPair hsp))
+
+/-- for a source whose edges were derived by uxarray, the subset's re-indexed
+    `edge_node_connectivity` is exactly the table `_build_edge_node_connectivity` gives on the
+    subset's faces — same rows, same order -/
+theorem sub_EN_eq_fresh (h : Pre n w s idx) (hb : s.EN = edges s.t) :
+    (sliceFaces s idx).EN = edges (sliceFaces s idx).t := by
+  apply sorted_ext (sub_EN_sorted h hb) (sorted_edges _)
+  intro x
+  have hstd := slice_std h
+  constructor
+  · intro hx
+    obtain ⟨_, _, r', hr', hseg⟩ := sub_edges_sound h x hx
+    rw [sub_EN_pairs_sorted h hb x hx] at hseg
+    exact C02.seg_is_edge hstd r' hr' x hseg
+  · intro hx
+    obtain ⟨r', hr', hseg⟩ := C02.edge_is_seg hstd x hx
+    have := sub_edges_complete h r' hr' x hseg
+    rcases List.mem_map.mp this with ⟨y, hy, hyx⟩
+    rw [sub_EN_pairs_sorted h hb y hy] at hyx
+    rw [← hyx]; exact hy
+
+/-- a face-edge table is determined by the edge table it points into -/
+theorem faceEdges_unique {t : Table} {w : Nat} {E : List (Int × Int)} {F1 F2 : Table}
+    (hE : EdgesOnce E) (h1 : FaceEdgesOK t w E F1) (h2 : FaceEdgesOK t w E F2) : F1 = F2 := by
+  apply List.ext_getElem
+  · rw [h1.1, h2.1]
+  · intro i hi1 hi2
+    have hit : i < t.length := by rw [← h1.1]; exact hi1
+    obtain ⟨l1, s1⟩ := h1.2 i hit
+    obtain ⟨l2, s2⟩ := h2.2 i hit
+    rw [rowAt_lt hi1] at l1 s1
+    rw [rowAt_lt hi2] at l2 s2
+    apply List.ext_getElem
+    · rw [l1, l2]
+    · intro j hj1 hj2
+      have hjw : j < w := by omega
+      have a1 := s1 j hjw
+      have a2 := s2 j hjw
+      have e1 : entry F1[i] j = F1[i][j] := by unfold entry; exact getD_lt FILL hj1
+      have e2 : entry F2[i] j = F2[i][j] := by unfold entry; exact getD_lt FILL hj2
+      rw [e1] at a1
+      rw [e2] at a2
+      split at a1
+      · rename_i hk
+        rw [if_pos hk] at a2
+        obtain ⟨sg1, hsg1, x1, hx1, hs1⟩ := a1
+        obtain ⟨sg2, hsg2, x2, hx2, hs2⟩ := a2
+        have hsg : sg1 = sg2 := by
+          have : some sg1 = some sg2 := by rw [← hsg1, ← hsg2]
+          exact Option.some.inj this
+        obtain ⟨p0, pl, pg⟩ := getI?_some hx1
+        obtain ⟨q0, ql, qg⟩ := getI?_some hx2
+        have hl1 : (F1[i][j]).toNat < (E.map sortPair).length := by simpa using pl
+        have hl2 : (F2[i][j]).toNat < (E.map sortPair).length := by simpa using ql
+        have v1 : (E.map sortPair)[(F1[i][j]).toNat] = sg1 := by
+          rw [List.getElem_map, ← hs1]; congr 1
+          have := List.getElem?_eq_getElem pl ▸ pg
+          exact Option.some.inj this
+        have v2 : (E.map sortPair)[(F2[i][j]).toNat] = sg2 := by
+          rw [List.getElem_map, ← hs2]; congr 1
+          have := List.getElem?_eq_getElem ql ▸ qg
+          exact Option.some.inj this
+        have := getElem_inj_of_nodup hE hl1 hl2 (by rw [v1, v2, hsg])
+        omega
+      · rename_i hk
+        rw [if_neg hk] at a2
+        rw [a1, a2]
+
+/-- … and so is its re-indexed `face_edge_connectivity`: slicing commutes with edge construction -/
+theorem sub_FE_eq_fresh (h : Pre n w s idx) (hb : s.EN = edges s.t) :
+    (sliceFaces s idx).FE = faceEdges (sliceFaces s idx).t := by
+  have hstd := slice_std h
+  have hE := sub_EN_eq_fresh h hb
+  refine faceEdges_unique (E := edges (sliceFaces s idx).t) (C02.edges_once hstd) ?_ (C02.faceEdges_ok hstd)
+  rw [← hE]; exact sub_faceEdges_ok h
+
+/-- **slicing commutes with edge construction**: whether the edges are carried over from the source
+    or derived afresh on the subset, the subset has the same edge tables -/
+theorem slice_eq_fresh (h : Pre n w s idx) (hb : s.EN = edges s.t) :
+    (⟨(sliceFaces s idx).EN, (sliceFaces s idx).FE, nNodesPerFace (sliceFaces s idx).t⟩ : Edges.Out)
+      = Edges.build (sliceFaces s idx).t := by
+  unfold Edges.build
+  rw [← sub_EN_eq_fresh h hb, ← sub_FE_eq_fresh h hb]
+
+end Fresh
+
+/-! ## 7d. end to end for a freshly constructed grid -/
+
+theorem flatten_drop (T : Table) (w : Nat) (h : ∀ r ∈ T, r.length = w) (i : Nat) :
+    T.flatten.drop (i * w) = (T.drop i).flatten := by
+  induction T generalizing i with
+  | nil => simp
+  | cons r T ih =>
+    cases i with
+    | zero => simp
+    | succ i =>
+      have hr : r.length = w := h r (by simp)
+      have : (i + 1) * w = r.length + i * w := by rw [hr, Nat.succ_mul, Nat.add_comm]
+      rw [List.flatten_cons, this, List.drop_append, List.drop_succ_cons]
+      have e1 : List.drop (r.length + i * w) r = [] := List.drop_eq_nil_of_le (by omega)
+      have e2 : r.length + i * w - r.length = i * w := by omega
+      rw [e1, e2, List.nil_append]
+      exact ih (fun r hr => h r (by simp [hr])) i
+
+/-- `inverse_indices.reshape(n_face, w)` of the flattened table gives the table back -/
+theorem reshape_flatten (T : Table) (w : Nat) (hw : T ≠ [] → 0 < w) (h : ∀ r ∈ T, r.length = w) :
+    reshape w T.flatten = T := by
+  unfold reshape
+  rw [flatten_length_const T w h]
+  by_cases hT : T = []
+  · subst hT; simp
+  · have hw' := hw hT
+    rw [Nat.mul_div_cancel _ hw']
+    apply List.ext_getElem
+    · simp
+    · intro i h1 h2
+      simp only [List.getElem_map, List.getElem_range]
+      rw [flatten_drop T w h i]
+      have hd : T.drop i = T[i] :: T.drop (i + 1) := by
+        rw [List.drop_eq_getElem_cons h2]
+      rw [hd, List.flatten_cons]
+      have : (T[i]).length = w := h _ (List.getElem_mem h2)
+      rw [List.take_append_of_le_length (by omega), List.take_of_length_le (by omega)]
+
+theorem faceEdges_rows (t : Table) (w : Nat) (hw : ∀ r ∈ t, r.length = w) :
+    ∀ r ∈ faceEdges t, r.length = w := by
+  intro r hr
+  unfold faceEdges at hr
+  rcases List.mem_map.mp hr with ⟨r0, hr0, rfl⟩
+  rw [List.length_map, rowPairs_length, hw r0 hr0]
+
+/-- **C09 for a grid built from its faces, end to end**: for EVERY standard-form face table, EVERY
+    history of requests before slicing, EVERY valid duplicate-free face selection and EVERY order of
+    requests afterwards, nothing raises, the subset reports the tables of the sliced base, and those
+    tables meet the specification (exact restriction + C02 on the subset) -/
+theorem built_grid_end_to_end {n w : Nat} {t : Table} (hstd : StdForm n w t) {idx : List Nat}
+    (hidx : ∀ f ∈ idx, f < t.length) (hnd : idx.Nodup) (hist order : List Var) :
+    ∃ v, ((runHist { w := w, t := t } hist).bind (fun g => g.slice idx)).bind (fun u => u.view order) = some v ∧
+      v.en = (sliceFaces ⟨t, edges t, faceEdges t⟩ idx).EN ∧
+      v.fe = (sliceFaces ⟨t, edges t, faceEdges t⟩ idx).FE ∧
+      v.npf = nNodesPerFace (sliceFaces ⟨t, edges t, faceEdges t⟩ idx).t ∧
+      Slice.Spec ⟨t, edges t, faceEdges t⟩ w idx (sliceFaces ⟨t, edges t, faceEdges t⟩ idx).obs ∧
+      (⟨v.en, v.fe, v.npf⟩ : Edges.Out) = Edges.build (sliceFaces ⟨t, edges t, faceEdges t⟩ idx).t := by
+  have hrows : ∀ r ∈ t, r.length = w := fun r hr => (hstd r hr).1
+  have hw : faceEdges t ≠ [] → 0 < w := by
+    intro hne
+    cases t with
+    | nil => simp [faceEdges] at hne
+    | cons r t =>
+      have hs := hstd r (by simp)
+      have h2 : (faceOf r).length ≤ r.length := length_takeWhile_le' _ _
+      have h3 := hs.1
+      have h4 := hs.2.1
+      omega
+  have hresh : reshape w (faceEdges t).flatten = faceEdges t :=
+    reshape_flatten _ w hw (faceEdges_rows t w hrows)
+  have hcoh := coh_fresh w t hrows
+  have hpre : Pre n w ⟨t, edges t, faceEdges t⟩ idx :=
+    ⟨hstd, C02.build_meets_spec hstd, hidx, hnd⟩
+  refine ⟨_, slice_history_independent hcoh hidx hist order, ?_, ?_, rfl, slice_meets_spec hpre, ?_⟩
+  · simp [Base.view, Base.slice, hresh]
+  · simp [Base.view, Base.slice, hresh]
+  · have := slice_eq_fresh hpre rfl
+    simp only [Base.view, Base.slice, Base.N, hresh]
+    exact this
+
+/-! ## 8. /repo before the repair: proved counterexamples, and non-vacuity -/
+
+/-- two triangles sharing the edge (1,2) -/
+def t2 : Table := [[0, 1, 2], [2, 1, 3]]
+def src2 : Src := { t := t2, EN := [(0, 1), (0, 2), (1, 2), (1, 3), (2, 3)], FE := [[0, 2, 1], [2, 3, 4]] }
+def g2 : State := { w := 3, t := t2 }
+
+/-- the hypotheses of the main theorems are satisfiable (a genuine sub-selection, a permutation
+    of all faces, an unsorted selection with padding) -/
+example : src2.EN = edges t2 ∧ src2.FE = faceEdges t2 := by decide
+example : Pre 4 3 src2 [1] := by decide
+example : Pre 4 3 src2 [1, 0] := by decide
+example : Pre 6 4 { t := [[0, 1, 2, FILL], [2, 1, 3, 4], [4, 3, 5, FILL]],
+                    EN := edges [[0, 1, 2, FILL], [2, 1, 3, 4], [4, 3, 5, FILL]],
+                    FE := faceEdges [[0, 1, 2, FILL], [2, 1, 3, 4], [4, 3, 5, FILL]] } [2, 0] := by decide
+/-- the subset of the second triangle: nodes 1,2,3 become 0,1,2, its three edges become 0,1,2 -/
+example : sliceFaces src2 [1] =
+    { nodeIdx := [1, 2, 3], faceIdx := [1], edgeIdx := [2, 3, 4], t := [[1, 0, 2]],
+      EN := [(0, 1), (0, 2), (1, 2)], FE := [[0, 1, 2]] } := by decide
+example : Slice.Spec src2 3 [1] (sliceFaces src2 [1]).obs := slice_meets_spec (n := 4) (by decide)
+/-- the specification is not trivially true: a subset that keeps the source's numbering fails -/
+example : ¬ Slice.Spec src2 3 [1]
+    { nodeIdx := [1, 2, 3], faceIdx := [1], edgeIdx := [2, 3, 4], t := [[2, 1, 3]],
+      EN := [(1, 2), (1, 3), (2, 3)], FE := [[2, 3, 4]], N := [3] } := by decide
+example : Coh { w := 3, t := t2, EN := edges t2, FE := reshape 3 (faceEdges t2).flatten } g2 :=
+  coh_fresh 3 t2 (by decide)
+/-- the end-to-end theorem instantiated: a history before, a request order after -/
+example := built_grid_end_to_end (n := 4) (w := 3) (t := t2) (by decide) (idx := [1]) (by decide) (by decide)
+  [.holes, .faceFace] [.nodeFace]
+example : Edges.build (sliceFaces src2 [1]).t = ⟨[(0, 1), (0, 2), (1, 2)], [[0, 1, 2]], [3]⟩ := by decide
+/-- what the repaired slicer reports for the second triangle, after any history -/
+example : (g2.slice [1]).bind (fun u => u.view []) =
+    some { en := [(0, 1), (0, 2), (1, 2)], fe := [[0, 1, 2]], npf := [3], nf := [[0], [0], [0]],
+           ef := [(0, FILL), (0, FILL), (0, FILL)], ff := [[FILL, FILL, FILL]], holes := [0, 1, 2] } := by
+  decide
+
+/-- **as-is defect 1a**: /repo copies the source's `inverse_indices` onto the subset and drops
+    `face_edge_connectivity`; the first request for it reshapes 6 numbers into a 1 × 3 table: it raises
+    (every proper face subset of every grid) -/
+theorem asis_face_edge_raises : (g2.sliceAsIs [1]).bind (fun u => request u .faceEdge) = none := by
+  decide
+
+/-- **as-is defect 1b**: when the sizes happen to agree (all faces, another order) nothing raises and
+    the subset silently reports the SOURCE's rows in the SOURCE's order: row 0 does not describe
+    subset face 0 (C02's specification of the subset fails) -/
+theorem asis_face_edge_stale :
+    ((g2.sliceAsIs [1, 0]).bind (fun u => u.view [])).map
+      (fun v => (v.fe, decide (FaceEdgesOK [[2, 1, 3], [0, 1, 2]] 3 v.en v.fe)))
+      = some ([[0, 2, 1], [2, 3, 4]], false) := by
+  decide
+
+/-- the repaired slicer on the same request -/
+theorem repaired_face_edge_permuted :
+    ((g2.slice [1, 0]).bind (fun u => u.view [])).map
+      (fun v => (v.fe, decide (FaceEdgesOK [[2, 1, 3], [0, 1, 2]] 3 v.en v.fe)))
+      = some ([[2, 3, 4], [0, 2, 1]], true) := by
+  decide
+
+/-- **as-is defect 2** (visible once defect 1 is repaired): a `hole_edge_indices` materialised on the
+    source has no grid dimension, passes through `isel` unchanged and is reported by the subset: the
+    source's four boundary edges instead of the subset's three -/
+theorem asis_holes_stale :
+    (((runHist g2 [.holes]).bind (fun g => g.sliceWith false true [1])).bind (fun u => u.view [])).map
+      (fun v => v.holes) = some [0, 1, 3, 4] ∧
+    (((runHist g2 [.holes]).bind (fun g => g.slice [1])).bind (fun u => u.view [])).map
+      (fun v => v.holes) = some [0, 1, 2] := by
+  decide
+
+/-- data: a rank-3 example of `data_aligned_rank` -/
+example : (atN 1 (iselN 1 ([[10, 11, 12], [20, 21, 22]] : NArr Nat 1) [2, 0]) [1] 0).join = some 22 := by
+  decide
+/-- the scan on three edges, two schedules -/
+example : crossingEdges (0 : Int) [(-1, 1), (1, 2), (3, -2)] [0, 1, 2] = [0, 2] ∧
+    crossingEdges (0 : Int) [(-1, 1), (1, 2), (3, -2)] [2, 0, 1] = [0, 2] := by decide
+/-- an antimeridian-spanning box keeps 175° and -178°, not 0° -/
+example : boxSel ({ lon0 := 170, lon1 := -170, lat0 := -10, lat1 := 10, m180 := -180, p180 := 180 } : Box Int)
+    [175, 0, -178] [0, 0, 5] = [0, 2] := by decide
+example : knnSel ([5, 1, 3, 1] : List Int) 2 = [3, 1] := by decide
 
 end UxVerif.C09
